@@ -21,8 +21,11 @@ class Outside(Exception):
 
 
 class CutFlag:
-    __slots__ = ('set',)
-    def __init__(self): self.set = False
+    """cuts executed so far in one call (a counter, so that a second cut in the same body is seen as a new event)"""
+    __slots__ = ('n',)
+    def __init__(self): self.n = 0
+    @property
+    def set(self): return self.n > 0
 
 
 class Interp:
@@ -105,13 +108,13 @@ class Interp:
             #  'iso'     : goals after the cut may still backtrack; pending alternatives pruned
             alts = list(g[1])
             for i, alt in enumerate(alts):
-                was = cf.set
+                was = cf.n
                 for s in self.solve(alt, sub, cf):
                     yield s
-                    if cf.set and not was:
+                    if cf.n != was:
                         self.cut_in_disjunction = True
                         if self.disj_mode != 'iso': return
-                if cf.set and not was:
+                if cf.n != was:
                     self.cut_in_disjunction = True
                     if self.disj_mode == 'suiron':
                         for alt2 in alts[i + 1:]:
@@ -134,16 +137,16 @@ class Interp:
     def conj(self, goals, sub, cf):
         if not goals:
             yield sub; return
-        was = cf.set
+        was = cf.n
         for s in self.solve(goals[0], sub, cf):
             yield from self.conj(goals[1:], s, cf)
-            if cf.set and not was: return      # a cut ran at or after this goal: it is not re-tried
+            if cf.n != was: return      # a cut ran at or after this goal: it is not re-tried
 
     # ------------------------------------------------------------ built-ins
     def builtin(self, name, args, sub, cf):
         m = self.m
         if name == '!':
-            cf.set = True; self.cut_ran = True
+            cf.n += 1; self.cut_ran = True
             yield sub; return
         if name == 'fail': return
         if name == 'nl':
